@@ -1,6 +1,7 @@
 #!/bin/bash
 # try_seed.sh <seed_id> <check ids...> : apply /verif/seeded/<seed_id>/patch.diff to /repo, run the checks (quick), undo.
 set -u
+export VERIF_EVIDENCE_DIR=/tmp/wt/evidence_scratch
 ID="$1"; shift
 cd /repo || exit 3
 if ! git diff --quiet; then echo "/repo has uncommitted changes"; exit 3; fi
